@@ -186,6 +186,38 @@ func dump(e influxql.Expr) J {
 	}
 }
 
+// stripParens removes ParenExpr nodes from a tree dump: two trees that differ only in ParenExpr nodes have the same
+// operators and the same grouping (the grouping IS the tree), which is what the property demands; a printer may add
+// parentheses around an operand that would otherwise be regrouped.
+func stripParens(j any) any {
+	switch x := j.(type) {
+	case J:
+		if x["k"] == "paren" {
+			return stripParens(x["e"])
+		}
+		out := J{}
+		for k, v := range x {
+			out[k] = stripParens(v)
+		}
+		return out
+	case []J:
+		out := make([]any, len(x))
+		for i, v := range x {
+			out[i] = stripParens(v)
+		}
+		return out
+	case []any:
+		out := make([]any, len(x))
+		for i, v := range x {
+			out[i] = stripParens(v)
+		}
+		return out
+	}
+	return j
+}
+
+func meaningJSON(j any) string { return canonJSON(stripParens(j)) }
+
 func canonJSON(j any) string {
 	b, _ := json.Marshal(j)
 	return string(b)
@@ -317,7 +349,7 @@ func roundtrip(c *Case, e influxql.Expr) {
 		return
 	}
 	c.Re = dump(re)
-	if canonJSON(c.E) != canonJSON(c.Re) {
+	if meaningJSON(c.E) != meaningJSON(c.Re) {
 		c.Oracle = "re-parsed tree differs"
 	}
 }
@@ -827,7 +859,7 @@ func exprStr(e influxql.Expr) string {
 	if e == nil {
 		return "<nil>"
 	}
-	return canonJSON(dump(e))
+	return meaningJSON(dump(e))
 }
 
 func fieldRepr(name string, fv reflect.Value) (string, bool) {
